@@ -5,6 +5,9 @@ use super::*;
 pub(crate) struct Alias<'src, T = Rc<Recipe<'src>>> {
   pub(crate) attributes: AttributeSet<'src>,
   pub(crate) name: Name<'src>,
+  /// The target as written, kept when the alias is resolved
+  #[serde(skip)]
+  pub(crate) path: Option<Namepath<'src>>,
   #[serde(
     bound(serialize = "T: Keyed<'src>"),
     serialize_with = "keyed::serialize"
@@ -19,6 +22,7 @@ impl<'src> Alias<'src, Namepath<'src>> {
     Alias {
       attributes: self.attributes,
       name: self.name,
+      path: Some(self.target),
       target,
     }
   }
